@@ -64,7 +64,9 @@ def readHunks (b : Nat) : List Nat → Option Str → Option Str → Prog (List 
   | n :: rest, after, last => do
     match ← (readHunk b n).attempt with
     | .ok none => pure ([], last)                       -- `Ok(None) => return None`: iteration ends
-    | .error _ => readHunks b rest after last           -- `Err(_) => continue`
+    | .error e =>                                       -- `Err(err) => { monitor.error(err); continue }`
+      logError e
+      readHunks b rest after last
     | .ok (some es) =>
       match after with
       | some a =>
@@ -84,6 +86,19 @@ def readHunks (b : Nat) : List Nat → Option Str → Option Str → Prog (List 
           let (more, last') ← readHunks b rest none (es.getLast?.map (fun (l : IndexEntry) => l.apath))
           pure (es ++ more, last')
 
+/-- `Band::check_index_hunks`: the hunks present must be numbered consecutively from zero, and
+a closed band must have as many as its tail says. -/
+def checkIndexHunks (b : Nat) : Prog Unit := do
+  let hunks ← hunksAvailable b
+  if hunks != List.range hunks.length then .fail .invalidMetadata
+  match ← perform (.read (.bandTail b)) with
+  | .err .notFound => pure ()
+  | .err e => .fail (.transport e)
+  | .val (.tail (some n)) => if hunks.length = n then pure () else .fail .invalidMetadata
+  | .val (.tail none) => pure ()
+  | .val _ => .fail .json
+  | _ => .fail (.transport .other)
+
 /-- `State::BeforeBand` … until the band's hunks are exhausted: entries taken from band `b`
 (unfiltered) and the new `last_apath`. -/
 def readBand (b : Nat) (last : Option Str) : Prog (List IndexEntry × Option Str) := do
@@ -98,7 +113,11 @@ def readBand (b : Nat) (last : Option Str) : Prog (List IndexEntry × Option Str
     | .error e =>
       logError e
       pure ([], last)
-    | .ok hunks => readHunks b hunks last last
+    | .ok hunks =>
+      match ← (checkIndexHunks b).attempt with
+      | .error e => logError e            -- some hunks are missing: say so, return what is left
+      | .ok () => pure ()
+      readHunks b hunks last last
 
 /-- `State::AfterBand(b)` for `b = n` where only bands below `n` remain to be tried:
 walk down to the previous existing band, read it, go on unless it is closed. -/
